@@ -470,6 +470,13 @@ func (q *fwT) stmt(s ast.Stmt, name string) string {
 		if st.Init != nil {
 			pre = q.stmt(st.Init, name) + "\n"
 		}
+		// `if A && B { … }` without else: B is only evaluated when A holds (it may contain an index or slice expression that
+		// would panic otherwise): nested ifs
+		if be, ok := st.Cond.(*ast.BinaryExpr); ok && be.Op == token.LAND && st.Else == nil {
+			inner := &ast.IfStmt{Cond: be.Y, Body: st.Body}
+			outer := &ast.IfStmt{Cond: be.X, Body: &ast.BlockStmt{List: []ast.Stmt{inner}}}
+			return pre + q.stmt(outer, name)
+		}
 		out := pre + fmt.Sprintf("if %s then\n%s", q.expr(st.Cond), indent(q.block(st.Body.List, name)))
 		switch e := st.Else.(type) {
 		case nil:
